@@ -29,7 +29,72 @@ type rewriter struct {
 	err        error
 	httpServer bool
 	funcLevel  bool
+	inInit     bool
 	tmp        int
+}
+
+// chanNames: names (variables, fields, parameters) declared with a channel type or initialised with
+// make(chan ...) in any of the files being instrumented; a `range` over one of them is a channel range.
+var chanNames = map[string]bool{}
+
+func collectChanNames(f *ast.File) {
+	isMakeChan := func(e ast.Expr) bool {
+		c, ok := e.(*ast.CallExpr)
+		if !ok || len(c.Args) == 0 {
+			return false
+		}
+		id, ok := c.Fun.(*ast.Ident)
+		if !ok || id.Name != "make" {
+			return false
+		}
+		_, ok = c.Args[0].(*ast.ChanType)
+		return ok
+	}
+	base := func(e ast.Expr) string {
+		switch x := e.(type) {
+		case *ast.Ident:
+			return x.Name
+		case *ast.SelectorExpr:
+			return x.Sel.Name
+		}
+		return ""
+	}
+	ast.Inspect(f, func(n ast.Node) bool {
+		switch x := n.(type) {
+		case *ast.ValueSpec:
+			_, typed := x.Type.(*ast.ChanType)
+			for i, nm := range x.Names {
+				if typed || (i < len(x.Values) && isMakeChan(x.Values[i])) {
+					chanNames[nm.Name] = true
+				}
+			}
+		case *ast.AssignStmt:
+			for i, l := range x.Lhs {
+				if i < len(x.Rhs) && isMakeChan(x.Rhs[i]) && base(l) != "" {
+					chanNames[base(l)] = true
+				}
+			}
+		case *ast.Field:
+			if _, ok := x.Type.(*ast.ChanType); ok {
+				for _, nm := range x.Names {
+					chanNames[nm.Name] = true
+				}
+			}
+		}
+		return true
+	})
+}
+
+func isChanExpr(e ast.Expr) bool {
+	switch x := e.(type) {
+	case *ast.Ident:
+		return chanNames[x.Name]
+	case *ast.SelectorExpr:
+		return chanNames[x.Sel.Name]
+	case *ast.ParenExpr:
+		return isChanExpr(x.X)
+	}
+	return false
 }
 
 func sel(pkg, name string) *ast.SelectorExpr {
@@ -224,7 +289,13 @@ func (r *rewriter) stmt(s ast.Stmt) []ast.Stmt {
 		} else {
 			fn = &ast.FuncLit{Type: &ast.FuncType{Params: &ast.FieldList{}}, Body: &ast.BlockStmt{List: []ast.Stmt{&ast.ExprStmt{X: call}}}}
 		}
-		goCall := &ast.ExprStmt{X: &ast.CallExpr{Fun: sel("vsched", "Go"), Args: []ast.Expr{fn}}}
+		starter := "Go"
+		if r.inInit {
+			// a goroutine started from init() lives as long as the process: it becomes a daemon thread
+			// that every execution starts afresh
+			starter = "RegisterDaemon"
+		}
+		goCall := &ast.ExprStmt{X: &ast.CallExpr{Fun: sel("vsched", starter), Args: []ast.Expr{fn}}}
 		if len(pre) == 0 {
 			return []ast.Stmt{goCall}
 		}
@@ -275,6 +346,26 @@ func (r *rewriter) stmt(s ast.Stmt) []ast.Stmt {
 		}
 		r.block(x.Body)
 	case *ast.RangeStmt:
+		if isChanExpr(x.X) {
+			// for v := range ch  ==>  for { v, ok := ch.Recv2(); if !ok { break }; ... }
+			x.X = r.expr(x.X)
+			r.block(x.Body)
+			r.tmp++
+			ok := ast.NewIdent(fmt.Sprintf("verifOk%d", r.tmp))
+			recv := &ast.CallExpr{Fun: &ast.SelectorExpr{X: x.X, Sel: ast.NewIdent("Recv2")}}
+			brk := &ast.IfStmt{Cond: &ast.UnaryExpr{Op: token.NOT, X: ok}, Body: &ast.BlockStmt{List: []ast.Stmt{&ast.BranchStmt{Tok: token.BREAK}}}}
+			var head []ast.Stmt
+			switch {
+			case x.Key == nil:
+				head = []ast.Stmt{&ast.AssignStmt{Lhs: []ast.Expr{ast.NewIdent("_"), ok}, Tok: token.DEFINE, Rhs: []ast.Expr{recv}}, brk}
+			case x.Tok == token.DEFINE:
+				head = []ast.Stmt{&ast.AssignStmt{Lhs: []ast.Expr{x.Key, ok}, Tok: token.DEFINE, Rhs: []ast.Expr{recv}}, brk}
+			default:
+				v := ast.NewIdent(fmt.Sprintf("verifV%d", r.tmp))
+				head = []ast.Stmt{&ast.AssignStmt{Lhs: []ast.Expr{v, ok}, Tok: token.DEFINE, Rhs: []ast.Expr{recv}}, brk, &ast.AssignStmt{Lhs: []ast.Expr{x.Key}, Tok: token.ASSIGN, Rhs: []ast.Expr{v}}}
+			}
+			return []ast.Stmt{&ast.ForStmt{Body: &ast.BlockStmt{List: append(head, x.Body.List...)}}}
+		}
 		x.X = r.expr(x.X)
 		r.block(x.Body)
 	case *ast.BlockStmt:
@@ -393,6 +484,76 @@ func (r *rewriter) genDecl(gd *ast.GenDecl) {
 	}
 }
 
+// pureInit: the expression can be evaluated again without side effects (no calls except builtins,
+// conversions to composite types and the channel constructor the rewriter itself introduced).
+func pureInit(e ast.Expr) bool {
+	pure := true
+	ast.Inspect(e, func(n ast.Node) bool {
+		switch x := n.(type) {
+		case *ast.FuncLit:
+			return false // a function value; its body runs later
+		case *ast.CallExpr:
+			switch f := x.Fun.(type) {
+			case *ast.Ident:
+				switch f.Name {
+				case "make", "new", "len", "cap", "append", "string", "byte", "rune", "int", "int32", "int64", "uint", "uint8", "uint32", "uint64", "float64", "bool":
+				default:
+					pure = false
+				}
+			case *ast.ArrayType, *ast.MapType, *ast.StarExpr, *ast.ParenExpr:
+			case *ast.IndexExpr:
+				if !isPkgSel(f.X, "vsched", "NewChan") {
+					pure = false
+				}
+			default:
+				pure = false
+			}
+		}
+		return pure
+	})
+	return pure
+}
+
+// resetStmts builds the assignments that put the file's package-level variables back to their initial
+// values. Variables with an impure initialiser keep their state (an empty statement list is still
+// returned non-nil, so that the runtime knows the file has package-level state).
+func resetStmts(f *ast.File) []ast.Stmt {
+	var out []ast.Stmt
+	found := false
+	for _, d := range f.Decls {
+		gd, ok := d.(*ast.GenDecl)
+		if !ok || gd.Tok != token.VAR {
+			continue
+		}
+		for _, sp := range gd.Specs {
+			vs := sp.(*ast.ValueSpec)
+			for i, nm := range vs.Names {
+				if nm.Name == "_" {
+					continue
+				}
+				found = true
+				switch {
+				case len(vs.Values) == 0 && vs.Type != nil:
+					out = append(out, &ast.AssignStmt{Lhs: []ast.Expr{ast.NewIdent(nm.Name)}, Tok: token.ASSIGN, Rhs: []ast.Expr{&ast.StarExpr{X: &ast.CallExpr{Fun: ast.NewIdent("new"), Args: []ast.Expr{vs.Type}}}}})
+				case len(vs.Values) == len(vs.Names) && pureInit(vs.Values[i]):
+					var rhs ast.Expr = vs.Values[i]
+					if vs.Type != nil {
+						rhs = &ast.CallExpr{Fun: &ast.ParenExpr{X: vs.Type}, Args: []ast.Expr{rhs}}
+					}
+					out = append(out, &ast.AssignStmt{Lhs: []ast.Expr{ast.NewIdent(nm.Name)}, Tok: token.ASSIGN, Rhs: []ast.Expr{rhs}})
+				}
+			}
+		}
+	}
+	if !found {
+		return nil
+	}
+	if out == nil {
+		out = []ast.Stmt{}
+	}
+	return out
+}
+
 func usesPkg(f *ast.File, name string) bool {
 	found := false
 	ast.Inspect(f, func(n ast.Node) bool {
@@ -422,7 +583,9 @@ func instrumentFile(path, rel string, httpServer, funcLevel bool) ([]byte, error
 		case *ast.FuncDecl:
 			r.fields(x.Recv)
 			x.Type = r.expr(x.Type).(*ast.FuncType)
+			r.inInit = x.Recv == nil && x.Name.Name == "init"
 			r.block(x.Body)
+			r.inInit = false
 			if funcLevel && x.Body != nil {
 				// function-level granularity: one scheduling point on entry of every function
 				x.Body.List = append([]ast.Stmt{r.yield(x)}, x.Body.List...)
@@ -435,6 +598,13 @@ func instrumentFile(path, rel string, httpServer, funcLevel bool) ([]byte, error
 	}
 	if r.err != nil {
 		return nil, r.err
+	}
+	// package-level variables: every execution of the explorer must start from the process-initial
+	// state, so their (side-effect free) initialisers are re-evaluated by a registered reset
+	if rs := resetStmts(f); rs != nil {
+		r.used["vsched"] = true
+		reg := &ast.ExprStmt{X: &ast.CallExpr{Fun: sel("vsched", "RegisterReset"), Args: []ast.Expr{&ast.FuncLit{Type: &ast.FuncType{Params: &ast.FieldList{}}, Body: &ast.BlockStmt{List: rs}}}}}
+		f.Decls = append(f.Decls, &ast.FuncDecl{Name: ast.NewIdent("init"), Type: &ast.FuncType{Params: &ast.FieldList{}}, Body: &ast.BlockStmt{List: []ast.Stmt{reg}}})
 	}
 	// imports: add the runtime packages in use, drop std imports that became unused
 	var specs []ast.Spec
@@ -499,6 +669,11 @@ func main() {
 		funcLevel[f] = true
 	}
 	os.MkdirAll(*out, 0o755)
+	for _, rel := range flag.Args() {
+		if f, err := parser.ParseFile(token.NewFileSet(), filepath.Join(*repo, rel), nil, parser.SkipObjectResolution); err == nil {
+			collectChanNames(f)
+		}
+	}
 	overlay := map[string]string{}
 	for i, rel := range flag.Args() {
 		src := filepath.Join(*repo, rel)
